@@ -38,6 +38,9 @@ CFGS = [
     dict(radii=[3], kernel="harmonic", orient="directional", normwin=False, kargs={"offset": 1}),
     dict(radii=[2], kernel="flat", orient="directional", normwin=False, wfun="variable"),
     dict(radii=[3], kernel="harmonic", orient="after", normwin=False, wfun="variable", wargs={"power": 0.5}),
+    # un-normalised geometric kernel: for the timed vectorizer its weights depend on the fitted time scale (mean gap between
+    # consecutive events, mask events included), so every cell is asserted under nullify_mask as well
+    dict(radii=[2], kernel="geometric", orient="after", normwin=False),
 ]
 
 
